@@ -260,6 +260,7 @@ class History:
         self.objs[idx] = o
         fitkw = fitkw or {}
         Xb, yb = X.copy(deep=True), (y.copy(deep=True) if y is not None else None)
+        self.last_X = Xb          # pristine copy: later frames are derived from it, whatever fit did to X
         devb = {k: v.copy(deep=True) for k, v in fitkw.items()}
         exc = None
         out = None
